@@ -675,6 +675,16 @@ class DesugarMatch(ast.NodeTransformer):
                 if pat.name is not None:
                     binds.append((pat.name, subj))
                 return inner
+            if isinstance(pat, ast.MatchClass) and not pat.patterns:
+                # `case C():` / `case C(attr=pattern)`: an instance test, then the keyword patterns against the attributes
+                parts3: list = [ast.Call(func=ast.Name(id="isinstance", ctx=ast.Load()), args=[subj, pat.cls], keywords=[])]
+                for attr, q in zip(pat.kwd_attrs, pat.kwd_patterns):
+                    tq = test_of(q, ast.Attribute(value=subj, attr=attr, ctx=ast.Load()), binds)
+                    if tq is None:
+                        return None
+                    if tq is not True:
+                        parts3.append(tq)
+                return parts3[0] if len(parts3) == 1 else ast.BoolOp(op=ast.And(), values=parts3)
             if isinstance(pat, ast.MatchSequence) and isinstance(subj, ast.Tuple) and len(pat.patterns) == len(subj.elts) and \
                     not any(isinstance(q, ast.MatchStar) for q in pat.patterns):
                 parts2 = [test_of(q, e_, binds) for q, e_ in zip(pat.patterns, subj.elts)]
